@@ -299,6 +299,16 @@ distinct = distinct (segment count, zone density, seed); oracle = structure equa
         let n = counts_ref[i as usize];
         let spec = gen_map(&mut rng, n, i % 3 == 0);
         check_map(obs, &spec, &mut rng, mix(130, mix(n as u64, i)), if n > 50 { 6 } else { 40 });
+        // every other map is followed at once by one that carries the same generation stamp and
+        // segment count (the same first six bytes) and other zones: the same map regenerated
+        // within the minute, say.  It must decode to its own structure.
+        if i % 2 == 0 && n <= 50 {
+            let mut other = gen_map(&mut rng, n, i % 3 == 1);
+            other.date = spec.date;
+            other.minutes = spec.minutes;
+            obs.count("maps_followed_by_one_with_the_same_generation_stamp", 1);
+            check_map(obs, &other, &mut rng, mix(131, mix(n as u64, i)), 2);
+        }
         if obs.want_sample() && i % 5 == 1 {
             obs.sample(json!({"segments": n, "date": spec.date, "minutes": spec.minutes,
                 "first_azimuth_zones": spec.segments.first().and_then(|s| s.first()).map(|z| z.iter().take(4).collect::<Vec<_>>())}));
